@@ -313,7 +313,7 @@ class LoadExec:
             idx = self.ctx.try_fold(e.slice)
             if isinstance(idx, int):
                 return ("item", base, idx, None)
-            raise AnalysisError("unsupported subscript in loader: %s" % A.src(e))
+            return ("opaque", A.src(e), base)
         if isinstance(e, ast.Call):
             d = A.call_name(e)
             if d == self.stream + ".read" and len(e.args) == 1:
@@ -344,7 +344,14 @@ class LoadExec:
                         return ("tuple_n", self.term(ge.generators[0].iter.args[0], env))
                     raise AnalysisError("unsupported generator in loader: %s" % A.src(e))
                 return ("ctor", d) + tuple(self.term(a, env) for a in e.args)
-            raise AnalysisError("unsupported call in loader: %s" % A.src(e))
+            return ("opaque", A.src(e)) + tuple(self.term(a, env) for a in e.args)
+        if isinstance(e, (ast.BinOp, ast.UnaryOp, ast.Compare, ast.BoolOp, ast.IfExp)):
+            # arithmetic on decoded values: not one of the published reconstruction forms
+            subs = []
+            for ch in ast.iter_child_nodes(e):
+                if isinstance(ch, ast.expr):
+                    subs.append(self.term(ch, env))
+            return ("opaque", A.src(e)) + tuple(subs)
         raise AnalysisError("unsupported expression in loader: %s" % A.src(e))
 
 
